@@ -286,8 +286,8 @@ def gen(rng, index, tier):
         cfg['debug'] = True
     if deep_probe is not None:
         ops.append({'kind': 'fail', 'cfg': deep_probe, 'depth': None, 'probe': True})
-        return {'ops': ops, 'seed': rng.getrandbits(32)}
-    ops.append({'kind': 'assemble', 'cfg': cfg, 'depth': rng.choice([None, None, 900, 60]), 'probe': True})
+    else:
+        ops.append({'kind': 'assemble', 'cfg': cfg, 'depth': rng.choice([None, None, 900, 60]), 'probe': True})
     for o in ops:
         # the deep-expression programs are judged under the default depth only (under a lowered limit their outcome
         # depends on how many frames the caller already has, which differs between the history and a fresh process)
